@@ -281,11 +281,11 @@ impl Property for C03 {
         match tier {
             Tier::Quick => vec![
                 Family { name: "prefix_stride", kind: FamilyKind::Enumerated { count: total / 8, exhaustive: false } },
-                Family { name: "token_mut", kind: FamilyKind::Random { cases: 8000, max_len: 24 } },
-                Family { name: "char_mut", kind: FamilyKind::Random { cases: 6000, max_len: 24 } },
-                Family { name: "soup", kind: FamilyKind::Random { cases: 8000, max_len: 96 } },
+                Family { name: "token_mut", kind: FamilyKind::Random { cases: 30000, max_len: 24 } },
+                Family { name: "char_mut", kind: FamilyKind::Random { cases: 24000, max_len: 24 } },
+                Family { name: "soup", kind: FamilyKind::Random { cases: 30000, max_len: 96 } },
                 Family { name: "nesting", kind: FamilyKind::Random { cases: 400, max_len: 8 } },
-                Family { name: "raw", kind: FamilyKind::Random { cases: 2000, max_len: 64 } },
+                Family { name: "raw", kind: FamilyKind::Random { cases: 8000, max_len: 64 } },
             ],
             Tier::Thorough => vec![
                 Family { name: "prefix", kind: FamilyKind::Enumerated { count: total, exhaustive: true } },
